@@ -282,13 +282,14 @@ def modelApplies (f : Facts) : Bool :=
 
 /-- the defects the current failure handling exposes (each reproduced by the correspondence run;
     `failed_write_drops_entries` is the kernel-checked witness that refutes `Holds`) -/
-def currentFindings : List String :=
-  ["C25-failed-write-drops-entries", "C25-partial-block-strands-later-writes",
-   "C25-failed-header-rewrite-overwrites-file", "C25-failed-create-bricks-swamp"]
+def currentFindings (f : Facts) : List String :=
+  ["C25-failed-write-drops-entries", "C25-partial-block-strands-later-writes"] ++
+  (if f.restoresOffsetAfterHeader.isYes then [] else ["C25-failed-header-rewrite-overwrites-file"]) ++
+  (if f.truncatesTornTail.isYes then [] else ["C25-failed-create-bricks-swamp"])
 
 def classify (f : Facts) : Verdict :=
   if !modelApplies f then .undetermined "a failure-handling fact was not recognised (the model does not describe this code)"
-  else if f.clearsBufferBeforeWrite.isYes && !f.rollsBackFailedBlock.isYes then .violated currentFindings
+  else if f.clearsBufferBeforeWrite.isYes && !f.rollsBackFailedBlock.isYes then .violated (currentFindings f)
   else .undetermined "no full theorem for this failure handling (repaired writer: only repaired_writer_safe_partial)"
 
 /-- what is proved for a repaired writer -/
